@@ -491,6 +491,20 @@ Section Variables.
   Qed.
 End Variables.
 
+(** the first field visitor silent on good scopes: every field has a definition *)
+Lemma silent_fields_known S F D :
+  (forall top, field_of_scope S F top n_typename = None) -> composite_name S n_String = false ->
+  (forall d o, In d D -> In o (ssels_ss S F (model_def_scope S F d) (def_sub d)) -> good S (fst o)) ->
+  r_errs (inspect (fields_enter S F) pop (tree_doc (pti_doc (q_unwrap_obj repaired) S F D)) rst0) = [] ->
+  forall o, In o (all_fields S F D) -> fo_def S F o <> None.
+Proof.
+  intros Hnt Hstr Hgood Hpass o Ho. rewrite fields_pass_errors in Hpass.
+  apply all_fields_enum in Ho as [d [sc [s0 [Hd [Hin [Hfld ->]]]]]].
+  destruct s0 as [a al n np args dirs sub | |]; try discriminate.
+  rewrite flat_map_nil_iff in Hpass. specialize (Hpass d Hd). rewrite flat_map_nil_iff in Hpass. specialize (Hpass _ Hin). cbn [fst snd] in Hpass.
+  destruct (occ_defined S F Hnt Hstr (q_unwrap_obj repaired) sc a al n np args dirs sub (Hgood d _ Hd Hin) Hpass) as [def [E _]]. congruence.
+Qed.
+
 Lemma Done_inj a b : Done a = Done b -> a = b.
 Proof. intros H. injection H as H. exact H. Qed.
 
@@ -511,12 +525,7 @@ Proof.
   assert (composite_name S n_String = false) as Hstr.
   { unfold schema_roots_ok in Hs3. rewrite !andb_true_iff in Hs3. destruct Hs3 as [_ H]. apply negb_true_iff in H. exact H. }
   (* every field is defined *)
-  rewrite fields_pass_errors in Hpass.
-  assert (forall o, In o (all_fields S F D) -> fo_def S F o <> None) as Hfk.
-  { intros o Ho. apply all_fields_enum in Ho as [d [sc [s0 [Hd [Hin [Hfld ->]]]]]].
-    destruct s0 as [a al n np args dirs sub | |]; try discriminate.
-    rewrite flat_map_nil_iff in Hpass. specialize (Hpass d Hd). rewrite flat_map_nil_iff in Hpass. specialize (Hpass _ Hin). cbn [fst snd] in Hpass.
-    destruct (occ_defined S F Hnt Hstr (q_unwrap_obj repaired) sc a al n np args dirs sub (Hgood d _ Hd Hin) Hpass) as [def [E _]]. congruence. }
+  pose proof (silent_fields_known S F D Hnt Hstr Hgood Hpass) as Hfk.
   (* every directive is defined *)
   assert (valid_5_7_1 S D = true) as Hdk.
   { apply (rule_directives_iff S F D) in Hdir. unfold valid_5_7 in Hdir. rewrite !andb_true_iff in Hdir. tauto. }
